@@ -102,3 +102,27 @@ prop("C19", "proof",
 prop("C20", "other",
      ["EBR-TLS", "EBR-FINALIZE-HANDOFF", "EBR-NO-FORGET"],
      ["deadlock freedom and every TLS destruction order"], assumptions=TRUST)
+
+# ------------------------------------------------------------------------------------------
+from . import rules_bit  # noqa: E402
+
+register("BIT-TAGGED", rules_bit.rule_bit_tagged)
+register("BIT-DELEGATION", rules_bit.rule_bit_delegation)
+register("BIT-STATE", rules_bit.rule_bit_state)
+register("MOD-WINDOW", rules_bit.rule_mod_window)
+register("EPOCH-ARITH", rules_bit.rule_epoch_arith)
+
+BITTRUST = ["rustc MIR construction and const evaluation", "the abstract transfer functions of circlint/bitabs.py (bit provenance, "
+            "linear forms mod 2^64, affine forms in K)", "addresses fit below bit 60 (the reserved high bits)"]
+prop("C11", "proof",
+     ["BIT-TAGGED", "BIT-DELEGATION"],
+     [], assumptions=BITTRUST)
+prop("C12", "proof",
+     ["BIT-STATE", "MOD-WINDOW", "CW-CASCADE-DECISION"],
+     [], assumptions=BITTRUST + ["field independence of add_*/sub_* for in-range values follows from the verified linear form "
+                                 "`s +/- v*unit` by elementary arithmetic (no carry leaves a contiguous field while the field's "
+                                 "value stays in range); out-of-range counts are CW-ALLOC-RANGE's findings"])
+prop("C14", "other",
+     ["EBR-ADVANCE", "EBR-EPOCH-WRITERS", "EBR-PIN-VALIDATE", "EPOCH-ARITH"],
+     ["monotonicity under racing advancers as a schedule property (follows from 'advancers are pinned and check themselves', "
+      "which is argued, not checked)"], assumptions=TRUST)
